@@ -1,142 +1,943 @@
-//! C18 probe (temporary)
+//! C18 correspondence harness: the real `Btp` (BtpInner + btp::session::Session) driven
+//! operation by operation, alone against hostile segments and back to back with a second
+//! real `Btp` under a seeded scheduler.
+//!
+//! usage: c18 gen <quick|thorough> <seed> <outdir>     writes cases.txt + stats.json
+//!        c18 run <cases-file>                          prints one canonical line per case
+//!        c18 probe                                     the F10 witnesses, one line each
+//!
+//! Case lines (same grammar as ocaml/c18/driver.ml):
+//!   E <id> <op>...            one end; ops  i:<gatt|->:<addr>:<hex>   process_incoming
+//!                                           o:<gatt|->:<timer01>:<cap> process_outgoing
+//!                                           s:<addr>:<bytes>  send    r:<cap>  recv
+//!                                           x reset   I0/I1 set_initiator   L0/L1 relaxed MTU
+//!   P <id> <gattA|-> <gattB|-> <relaxedB01> <sop>...   two ends, A initiator;
+//!                                           sX:<bytes> pX:<timer01> dX fX  (X = A|B)
+//!                                           wB:<n> = rewrite the window proposed in the handshake request in flight
+//!   <bytes> = hex, or #<len>.<seed> (byte i = seed + 13 i + 7 (i / 256) mod 256)
+//! Output: per op  <res>@<rlevel>.<ack_level>.<slevel>.<swin>.<digest of the whole state>
+//!   res = u | b<hex> | n | t | e | P(panic, ends the case)   then  | <final state>
+use std::collections::{BTreeMap, VecDeque};
+use std::fmt::Write as _;
+use std::io::Write as _;
+use std::panic::AssertUnwindSafe;
+
 use rs_matter::transport::network::btp::Btp;
 use rs_matter::transport::network::BtAddr;
-use rsm_harness::catch;
+use rsm_harness::{catch, Digest, Rng};
 
-const PEER: BtAddr = BtAddr([1, 2, 3, 4, 5, 6]);
+fn addr(n: u8) -> BtAddr {
+    BtAddr([n, 0, 0, 0, 0, 0])
+}
 
-fn show(name: &str, f: impl FnOnce() -> String + std::panic::UnwindSafe) {
-    match catch(f) {
-        Ok(s) => println!("{name}: {s}"),
-        Err(p) => println!("{name}: PANIC {p}"),
+fn parse_bytes(s: &str) -> Vec<u8> {
+    if let Some(rest) = s.strip_prefix('#') {
+        let (l, sd) = rest.split_once('.').unwrap();
+        let (l, sd): (usize, usize) = (l.parse().unwrap(), sd.parse().unwrap());
+        (0..l).map(|i| ((sd + 13 * i + 7 * (i / 256)) & 255) as u8).collect()
+    } else {
+        (0..s.len() / 2)
+            .map(|i| u8::from_str_radix(&s[2 * i..2 * i + 2], 16).unwrap())
+            .collect()
     }
 }
 
-fn hs(btp: &Btp, w: u8) {
-    btp.process_incoming(None, PEER, &[0x65, 0x6c, 0x04, 0, 0, 0, 0xc8, 0, w])
-        .unwrap();
-    let mut buf = [0u8; 512];
-    let n = btp.process_outgoing(None, &mut buf).unwrap();
-    assert!(n > 0);
+fn hex(b: &[u8]) -> String {
+    let mut s = String::with_capacity(b.len() * 2);
+    for x in b {
+        write!(s, "{:02x}", x).unwrap();
+    }
+    s
 }
 
-fn main() {
-    rsm_harness::silence_panics();
-    // 1. data before the handshake: recv level 0 - 1
-    show("data-before-handshake", || {
-        let btp = Btp::new();
-        format!("{:?}", btp.process_incoming(None, PEER, &[0x05, 0x00, 0x01, 0x00, 0xaa]).map_err(|e| e.code()))
-    });
-    // 2. window overrun by one
-    show("window-overrun", || {
-        let btp = Btp::new();
-        hs(&btp, 2);
-        let mut r = vec![];
-        for seq in 0..3u8 {
-            r.push(format!("{:?}", btp.process_incoming(None, PEER, &[0x05, seq, 0x00, 0x00]).map_err(|e| e.code())));
+fn parse_gatt(s: &str) -> Option<u16> {
+    if s == "-" {
+        None
+    } else {
+        Some(s.parse().unwrap())
+    }
+}
+
+/// the observable state in the model's order (sent_at dropped)
+fn state_vec(b: &Btp) -> Vec<u32> {
+    let st = b.verif_state();
+    let mut v = st[..16].to_vec();
+    v.extend_from_slice(&st[17..20]);
+    v
+}
+
+fn snap_str(b: &Btp) -> String {
+    let v = state_vec(b);
+    let mut d = Digest::new();
+    for x in &v {
+        d.push(*x as u64);
+    }
+    format!("{}.{}.{}.{}.{:08x}", v[9], v[10], v[14], v[13], d.0 & 0xffff_ffff)
+}
+
+fn full_str(b: &Btp) -> String {
+    state_vec(b).iter().map(|x| x.to_string()).collect::<Vec<_>>().join(",")
+}
+
+#[derive(Clone, Debug)]
+enum Res {
+    U,
+    B(Vec<u8>),
+    N,
+    T,
+    E,
+}
+
+impl Res {
+    fn show(&self) -> String {
+        match self {
+            Res::U => "u".into(),
+            Res::B(b) => format!("b{}", hex(b)),
+            Res::N => "n".into(),
+            Res::T => "t".into(),
+            Res::E => "e".into(),
         }
-        r.join(",")
-    });
-    // 3. ack of something never sent
-    show("bogus-ack", || {
-        let btp = Btp::new();
-        hs(&btp, 5);
-        format!("{:?}", btp.process_incoming(None, PEER, &[0x08, 200, 0x00]).map_err(|e| e.code()))
-    });
-    // 4. handshake request with window 0
-    show("handshake-window-0", || {
-        let btp = Btp::new();
-        btp.process_incoming(None, PEER, &[0x65, 0x6c, 0x04, 0, 0, 0, 0xc8, 0, 0]).unwrap();
-        let mut buf = [0u8; 512];
-        format!("{:?}", btp.process_outgoing(None, &mut buf).map_err(|e| e.code()))
-    });
-    // 5. handshake request, gatt mtu == requested mtu == 2
-    show("handshake-req-mtu-2", || {
-        let btp = Btp::new();
-        format!("{:?}", btp.process_incoming(Some(2), PEER, &[0x65, 0x6c, 0x04, 0, 0, 0, 2, 0, 5]).map_err(|e| e.code()))
-    });
-    show("handshake-req-mtu-3", || {
-        let btp = Btp::new();
-        format!("{:?}", btp.process_incoming(Some(3), PEER, &[0x65, 0x6c, 0x04, 0, 0, 0, 3, 0, 5]).map_err(|e| e.code()))
-    });
-    show("handshake-req-relaxed-mtu-1", || {
-        let btp = Btp::new();
-        btp.set_relaxed_mtu_nego(true);
-        format!("{:?}", btp.process_incoming(Some(100), PEER, &[0x65, 0x6c, 0x04, 0, 0, 0, 1, 0, 5]).map_err(|e| e.code()))
-    });
-    // 6. initiator: handshake response with mtu 3 then send
-    show("handshake-resp-mtu-3", || {
-        let btp = Btp::new();
-        btp.set_initiator(true);
-        let mut buf = [0u8; 512];
-        btp.process_outgoing(None, &mut buf).unwrap();
-        btp.process_incoming(None, PEER, &[0x65, 0x6c, 0x04, 3, 0, 5]).unwrap();
-        btp.verif_send(&[1, 2, 3, 4, 5, 6, 7, 8], PEER).unwrap();
-        format!("{:?}", btp.process_outgoing(None, &mut buf).map_err(|e| e.code()))
-    });
-    // 7. window 1: ack due while the send window is exhausted -> assert!(len > 0)
-    show("ack-due-send-window-exhausted", || {
-        let btp = Btp::new();
-        hs(&btp, 1);
-        btp.process_incoming(None, PEER, &[0x05, 0x00, 0x00, 0x00]).unwrap();
-        let mut buf = [0u8; 512];
-        format!("{:?}", btp.process_outgoing(None, &mut buf).map_err(|e| e.code()))
-    });
-    // 8. honest message of 18 bytes at segment size 20
-    show("honest-len-18-mtu-20", || {
+    }
+}
+
+/// One operation on one real end. `Err(_)` = the implementation panicked.
+fn apply(b: &Btp, tok: &str) -> Result<Res, String> {
+    let f: Vec<&str> = tok.split(':').collect();
+    catch(AssertUnwindSafe(|| match f[0] {
+        "i" => {
+            let data = parse_bytes(f[3]);
+            match b.process_incoming(parse_gatt(f[1]), addr(f[2].parse().unwrap()), &data) {
+                Ok(()) => Res::U,
+                Err(_) => Res::E,
+            }
+        }
+        "o" => {
+            b.verif_set_timeouts(if f[2] == "1" { 0 } else { 255 }, 255);
+            let cap: usize = f[3].parse().unwrap();
+            let mut buf = vec![0u8; cap];
+            match b.process_outgoing(parse_gatt(f[1]), &mut buf) {
+                Ok(n) => Res::B(buf[..n].to_vec()),
+                Err(_) => Res::E,
+            }
+        }
+        "s" => {
+            let data = parse_bytes(f[2]);
+            match b.verif_send(&data, addr(f[1].parse().unwrap())) {
+                Ok(true) => Res::T,
+                Ok(false) => Res::N,
+                Err(_) => Res::E,
+            }
+        }
+        "r" => {
+            let cap: usize = f[1].parse().unwrap();
+            let mut buf = vec![0u8; cap];
+            match b.verif_recv(&mut buf) {
+                Ok(Some((n, _))) => Res::B(buf[..n].to_vec()),
+                Ok(None) => Res::N,
+                Err(_) => Res::E,
+            }
+        }
+        "x" => {
+            b.reset();
+            Res::U
+        }
+        "I0" | "I1" => {
+            b.set_initiator(f[0] == "I1");
+            Res::U
+        }
+        "L0" | "L1" => {
+            b.set_relaxed_mtu_nego(f[0] == "L1");
+            Res::U
+        }
+        _ => panic!("harness: bad op {tok}"),
+    }))
+}
+
+struct Pair {
+    a: Btp,
+    b: Btp,
+    to_a: VecDeque<Vec<u8>>,
+    to_b: VecDeque<Vec<u8>>,
+    ga: Option<u16>,
+    gb: Option<u16>,
+}
+
+impl Pair {
+    fn new(ga: Option<u16>, gb: Option<u16>, rel: bool) -> Self {
         let a = Btp::new();
         a.set_initiator(true);
         let b = Btp::new();
-        let mut buf = [0u8; 512];
-        let n = a.process_outgoing(None, &mut buf).unwrap();
-        b.process_incoming(None, PEER, &buf[..n]).unwrap();
-        let n = b.process_outgoing(None, &mut buf).unwrap();
-        a.process_incoming(None, PEER, &buf[..n]).unwrap();
-        a.verif_send(&[7u8; 18], PEER).unwrap();
-        let mut r = vec![];
-        loop {
-            let n = a.process_outgoing(None, &mut buf).unwrap();
-            if n == 0 {
-                break;
+        b.set_relaxed_mtu_nego(rel);
+        Pair { a, b, to_a: VecDeque::new(), to_b: VecDeque::new(), ga, gb }
+    }
+
+    fn apply(&mut self, tok: &str) -> Result<Res, String> {
+        let is_a = tok.as_bytes()[1] == b'A';
+        let (me, my_addr, peer_addr, gatt) = if is_a {
+            (&self.a, 10u8, 11u8, self.ga)
+        } else {
+            (&self.b, 11u8, 10u8, self.gb)
+        };
+        let _ = my_addr;
+        match tok.as_bytes()[0] {
+            b's' => apply(me, &format!("s:{}:{}", peer_addr, &tok[3..])),
+            b'p' => {
+                let g = gatt.map(|g| g.to_string()).unwrap_or("-".into());
+                let r = apply(me, &format!("o:{}:{}:512", g, &tok[3..4]))?;
+                if let Res::B(d) = &r {
+                    if !d.is_empty() {
+                        if is_a {
+                            self.to_b.push_back(d.clone());
+                        } else {
+                            self.to_a.push_back(d.clone());
+                        }
+                    }
+                }
+                Ok(r)
             }
-            r.push(format!("{:?}", b.process_incoming(None, PEER, &buf[..n]).map_err(|e| e.code())));
+            b'd' => {
+                let q = if is_a { &mut self.to_a } else { &mut self.to_b };
+                match q.pop_front() {
+                    None => Ok(Res::N),
+                    Some(d) => {
+                        let g = gatt.map(|g| g.to_string()).unwrap_or("-".into());
+                        apply(me, &format!("i:{}:{}:{}", g, peer_addr, hex(&d)))
+                    }
+                }
+            }
+            b'f' => apply(me, "r:2048"),
+            b'w' => {
+                // input shaping, not an operation of either end: another initiator would have
+                // proposed this window (byte 8 of the handshake request in flight)
+                let q = if is_a { &mut self.to_a } else { &mut self.to_b };
+                if let Some(d) = q.front_mut() {
+                    if d.len() == 9 && d[0] == 0x65 {
+                        d[8] = tok[3..].parse().unwrap();
+                    }
+                }
+                Ok(Res::U)
+            }
+            _ => panic!("harness: bad sop {tok}"),
         }
-        r.join(",")
-    });
-    // 9. refused segment leaves a stale length prefix behind
-    show("stale-prefix-after-refusal", || {
-        let btp = Btp::new();
-        hs(&btp, 5);
-        let r1 = btp.process_incoming(None, PEER, &[0x05, 0, 5, 0, 1, 2, 3, 4, 5, 6, 7, 8, 9, 10]).map_err(|e| e.code());
-        let r2 = btp.process_incoming(None, PEER, &[0x05, 0, 3, 0, 0xa, 0xb, 0xc]).map_err(|e| e.code());
-        let mut out = [0u8; 64];
-        let m = btp.verif_recv(&mut out).map(|o| o.map(|(n, _)| out[..n].to_vec())).map_err(|e| e.code());
-        format!("{:?} {:?} fetched={:?}", r1, r2, m)
-    });
-    // 10. a new SDU begins in the middle of another one
-    show("begin-in-the-middle", || {
-        let btp = Btp::new();
-        hs(&btp, 5);
-        let mut s1 = vec![0x01, 0, 21, 0];
-        s1.extend_from_slice(&[0x11; 16]);
-        let r1 = btp.process_incoming(None, PEER, &s1).map_err(|e| e.code());
-        let r2 = btp.process_incoming(None, PEER, &[0x05, 1, 3, 0, 0xa, 0xb, 0xc]).map_err(|e| e.code());
-        let mut out = [0u8; 64];
-        let m = btp.verif_recv(&mut out).map(|o| o.map(|(n, _)| out[..n].to_vec())).map_err(|e| e.code());
-        format!("{:?} {:?} fetched={:?}", r1, r2, m)
-    });
-    // 11. repeated handshake keeps ack_level: 80 empty SDUs, handshake, ...
-    show("re-handshake-ack-level", || {
-        let btp = Btp::new();
-        let mut seq = 0u8;
-        for _round in 0..5 {
-            btp.process_incoming(None, PEER, &[0x65, 0x6c, 0x04, 0, 0, 0, 0xc8, 0, 255]).unwrap();
-            let st = btp.verif_state();
-            for _ in 0..st[9] {
-                btp.process_incoming(None, PEER, &[0x05, seq, 0, 0]).unwrap();
-                seq = seq.wrapping_add(1);
+    }
+}
+
+fn run_line(line: &str, out: &mut String) {
+    let f: Vec<&str> = line.split(' ').filter(|x| !x.is_empty()).collect();
+    match f[0] {
+        "E" => {
+            let b = Btp::new();
+            write!(out, "E {}", f[1]).unwrap();
+            let mut dead = false;
+            for tok in &f[2..] {
+                match apply(&b, tok) {
+                    Ok(r) => write!(out, " {}@{}", r.show(), snap_str(&b)).unwrap(),
+                    Err(_) => {
+                        out.push_str(" P");
+                        dead = true;
+                        break;
+                    }
+                }
+            }
+            if dead {
+                out.push_str(" | dead\n");
+            } else {
+                writeln!(out, " | {}", full_str(&b)).unwrap();
             }
         }
-        format!("{:?}", btp.verif_state())
-    });
+        "P" => {
+            let mut p = Pair::new(parse_gatt(f[2]), parse_gatt(f[3]), f[4] == "1");
+            write!(out, "P {}", f[1]).unwrap();
+            let mut dead = false;
+            for tok in &f[5..] {
+                match p.apply(tok) {
+                    Ok(r) => write!(out, " {}@{}/{}", r.show(), snap_str(&p.a), snap_str(&p.b)).unwrap(),
+                    Err(_) => {
+                        out.push_str(" P");
+                        dead = true;
+                        break;
+                    }
+                }
+            }
+            if dead {
+                out.push_str(" | dead\n");
+            } else {
+                writeln!(out, " | {} {}", full_str(&p.a), full_str(&p.b)).unwrap();
+            }
+        }
+        _ => panic!("harness: bad line {line}"),
+    }
+}
+
+// ------------------------------------------------------------------ generators
+
+fn hs_req(mtu: u16, ws: u8) -> Vec<u8> {
+    vec![0x65, 0x6c, 0x04, 0, 0, 0, (mtu & 255) as u8, (mtu >> 8) as u8, ws]
+}
+
+fn hs_resp(mtu: u16, ws: u8) -> Vec<u8> {
+    vec![0x65, 0x6c, 0x04, (mtu & 255) as u8, (mtu >> 8) as u8, ws]
+}
+
+/// header bytes from the six flag bits and the field values (fields present per the codec)
+fn hdr_bytes(flags: u8, op: u8, ack: u8, seq: u8, len: u16) -> Vec<u8> {
+    let mut v = vec![flags];
+    if flags & 0x20 != 0 {
+        v.push(op);
+    }
+    if flags & 0x08 != 0 {
+        v.push(ack);
+    }
+    if flags & 0x40 == 0 {
+        v.push(seq);
+    }
+    if flags & 0x01 != 0 && flags & 0x40 == 0 {
+        v.push((len & 255) as u8);
+        v.push((len >> 8) as u8);
+    }
+    v
+}
+
+struct Gen {
+    rng: Rng,
+    lines: Vec<String>,
+    stats: BTreeMap<String, u64>,
+    next_id: u64,
+}
+
+impl Gen {
+    fn count(&mut self, k: &str) {
+        *self.stats.entry(k.to_string()).or_insert(0) += 1;
+    }
+
+    fn emit_e(&mut self, stream: &str, ops: &[String]) {
+        self.next_id += 1;
+        self.count(&format!("cases_{stream}"));
+        *self.stats.entry("ops_total".into()).or_insert(0) += ops.len() as u64;
+        self.lines.push(format!("E {}{} {}", stream, self.next_id, ops.join(" ")));
+    }
+
+    fn gatt_pick(&mut self) -> Option<u16> {
+        match self.rng.below(10) {
+            0 => None,
+            1 => Some(*self.rng.pick(&[0u16, 1, 2, 3, 4, 20, 22, 23, 24, 247, 248, 517, 65535])),
+            _ => Some(self.rng.range(23, 517) as u16),
+        }
+    }
+
+    fn g_str(g: Option<u16>) -> String {
+        g.map(|g| g.to_string()).unwrap_or("-".into())
+    }
+
+    /// the context a probe segment is sent into; returns the ops and the live end
+    fn context(&mut self, kind: u64, ops: &mut Vec<String>) -> Btp {
+        let b = Btp::new();
+        let push = |b: &Btp, ops: &mut Vec<String>, t: String| {
+            let _ = apply(b, &t);
+            ops.push(t);
+        };
+        match kind {
+            0 => {} // before any handshake
+            4 => {
+                // responder between the handshake request and its response
+                let ws = *self.rng.pick(&[1u8, 2, 5, 255]);
+                push(&b, ops, format!("i:-:1:{}", hex(&hs_req(100, ws))));
+            }
+            1 | 3 => {
+                // responder after the handshake (window 1..8 or as computed)
+                let ws = *self.rng.pick(&[1u8, 2, 3, 5, 8, 255]);
+                let mtu = *self.rng.pick(&[23u16, 64, 200, 247]);
+                push(&b, ops, format!("i:{}:1:{}", mtu, hex(&hs_req(mtu, ws))));
+                push(&b, ops, "o:-:0:512".into());
+                if kind == 3 {
+                    // in the middle of an SDU: a valid first segment of a long message
+                    let st = b.verif_state();
+                    let m = st[3] as usize;
+                    let mut seg = hdr_bytes(0x01, 0, 0, 0, (3 * m) as u16);
+                    seg.extend((0..m - 4).map(|i| i as u8));
+                    push(&b, ops, format!("i:-:1:{}", hex(&seg)));
+                }
+            }
+            _ => {
+                // initiator after the handshake
+                push(&b, ops, "I1".into());
+                push(&b, ops, "o:-:0:512".into());
+                let ws = *self.rng.pick(&[1u8, 2, 4, 79, 255]);
+                let mtu = *self.rng.pick(&[20u16, 61, 244]);
+                push(&b, ops, format!("i:-:1:{}", hex(&hs_resp(mtu, ws))));
+                if self.rng.chance(1, 2) {
+                    push(&b, ops, "s:1:#30.5".into());
+                    push(&b, ops, "o:-:0:512".into());
+                }
+            }
+        }
+        b
+    }
+
+    /// stream "hf": every combination of the six flag bits x seq/ack choice, in four contexts
+    fn header_sweep(&mut self, reps: u64) {
+        for kind in 0..5u64 {
+            for bits in 0..64u8 {
+                let flags = (bits & 0x07) | ((bits & 0x08) << 0) | ((bits & 0x10) << 1) | ((bits & 0x20) << 1);
+                for seqc in 0..4u64 {
+                    for ackc in 0..4u64 {
+                        for _ in 0..reps {
+                            let mut ops = vec![];
+                            let b = self.context(kind, &mut ops);
+                            let st = b.verif_state();
+                            let (mtu, exp_seq, last_sent) = (st[3] as usize, (st[11] as u8).wrapping_add(1), st[15] as u8);
+                            let seq = match seqc {
+                                0 => exp_seq,
+                                1 => exp_seq.wrapping_add(1),
+                                2 => exp_seq.wrapping_sub(1),
+                                _ => self.rng.below(256) as u8,
+                            };
+                            let ack = match ackc {
+                                0 => last_sent,
+                                1 => last_sent.wrapping_add(1),
+                                2 => last_sent.wrapping_sub(1),
+                                _ => self.rng.below(256) as u8,
+                            };
+                            let mut fl = flags;
+                            if self.rng.chance(1, 16) {
+                                fl |= *self.rng.pick(&[0x80u8, 0x10, 0x90]);
+                            }
+                            let hl = hdr_bytes(fl, 0, 0, 0, 0).len();
+                            let room = mtu.saturating_sub(hl);
+                            let plen = *self.rng.pick(&[0usize, 1, room, room, room + 1, room.saturating_sub(1), 7, 300]);
+                            let rem = st[12] as usize;
+                            let mlen = *self.rng.pick(&[0usize, plen, plen, plen + 1, plen.saturating_sub(1), mtu, mtu + 1, rem, 2000, 65535]);
+                            let op = if self.rng.chance(1, 8) { self.rng.below(256) as u8 } else { 0x6c };
+                            let mut seg = hdr_bytes(fl, op, ack, seq, mlen as u16);
+                            if fl & 0x40 != 0 {
+                                // handshake-flagged: a request / response shaped payload
+                                let m = *self.rng.pick(&[0u16, 1, 2, 3, 5, 20, 23, 100, 247, 1000, 65535]);
+                                let w = *self.rng.pick(&[0u8, 1, 2, 6, 255]);
+                                seg.extend_from_slice(&hs_req(m, w)[2..]);
+                                if self.rng.chance(1, 2) {
+                                    seg.truncate(seg.len() - self.rng.below(4) as usize);
+                                }
+                            } else {
+                                seg.extend((0..plen).map(|i| (i * 3 + 1) as u8));
+                            }
+                            if self.rng.chance(1, 40) {
+                                let k = self.rng.below(seg.len() as u64 + 1) as usize;
+                                seg.truncate(k); // cut anywhere, also inside the header
+                            }
+                            let g = if self.rng.chance(1, 3) { self.gatt_pick() } else { None };
+                            ops.push(format!("i:{}:1:{}", Self::g_str(g), hex(&seg)));
+                            // after-effects: poll (ack timer on), fetch, a well-formed short SDU, fetch
+                            ops.push("o:-:1:512".into());
+                            ops.push("r:2048".into());
+                            let _ = apply(&b, &ops[ops.len() - 3]);
+                            let _ = apply(&b, "o:-:1:512");
+                            let _ = apply(&b, "r:2048");
+                            let st = b.verif_state();
+                            if st[5] == 0 {
+                                let nseq = (st[11] as u8).wrapping_add(1);
+                                let mut s2 = hdr_bytes(0x05, 0, 0, nseq, 3);
+                                s2.extend_from_slice(&[0xa, 0xb, 0xc]);
+                                ops.push(format!("i:-:1:{}", hex(&s2)));
+                                ops.push("r:2048".into());
+                                ops.push("r:2".into());
+                            }
+                            self.emit_e("hf", &ops);
+                        }
+                    }
+                }
+            }
+        }
+    }
+
+    /// stream "hs": handshake requests / responses with every interesting MTU / window / GATT MTU
+    fn handshake_sweep(&mut self) {
+        let mtus = [0u16, 1, 2, 3, 4, 5, 6, 19, 20, 22, 23, 24, 100, 244, 246, 247, 248, 517, 1583, 3166, 3167, 65535];
+        let wss = [0u8, 1, 2, 5, 6, 7, 78, 79, 80, 255];
+        for &m in &mtus {
+            for &w in &wss {
+                for gi in 0..4 {
+                    let g = match gi {
+                        0 => None,
+                        1 => Some(m),
+                        2 => Some(*self.rng.pick(&[0u16, 1, 2, 3, 23, 185, 517, 65535])),
+                        _ => self.gatt_pick(),
+                    };
+                    for rel in 0..2 {
+                        // responder
+                        let mut ops = vec![];
+                        if rel == 1 {
+                            ops.push("L1".to_string());
+                        }
+                        ops.push(format!("i:{}:1:{}", Self::g_str(g), hex(&hs_req(m, w))));
+                        ops.push("o:-:0:512".into());
+                        ops.push("s:1:#70.1".into());
+                        ops.push("o:-:0:512".into());
+                        ops.push("o:-:0:512".into());
+                        ops.push(format!("i:-:1:{}", hex(&[0x05, 0, 1, 0, 0x55])));
+                        ops.push("o:-:1:512".into());
+                        ops.push("r:2048".into());
+                        self.emit_e("hs", &ops);
+                    }
+                    // initiator: the peer answers (m, w)
+                    let mut ops = vec!["I1".to_string(), format!("o:{}:0:512", Self::g_str(g))];
+                    ops.push(format!("i:{}:1:{}", Self::g_str(g), hex(&hs_resp(m, w))));
+                    ops.push("s:1:#300.2".into());
+                    for _ in 0..4 {
+                        ops.push("o:-:0:512".into());
+                    }
+                    ops.push(format!("i:-:1:{}", hex(&[0x05, 1, 1, 0, 0x55])));
+                    ops.push("o:-:1:512".into());
+                    ops.push("r:2048".into());
+                    self.emit_e("hs", &ops);
+                }
+            }
+        }
+    }
+
+    /// stream "hr": long mostly-valid conversations with a peer that misbehaves now and then
+    fn hostile_random(&mut self, n: u64, max_ops: u64) {
+        for _ in 0..n {
+            let mut ops: Vec<String> = vec![];
+            let b = Btp::new();
+            let initiator = self.rng.chance(1, 3);
+            let push = |b: &Btp, ops: &mut Vec<String>, t: String| -> bool {
+                let r = apply(b, &t);
+                ops.push(t);
+                r.is_ok()
+            };
+            if self.rng.chance(1, 3) {
+                push(&b, &mut ops, "L1".into());
+            }
+            if initiator {
+                push(&b, &mut ops, "I1".into());
+            }
+            let nops = self.rng.range(20, max_ops);
+            let evil = self.rng.range(0, 12); // per-cent of misbehaviour
+            let mut alive = true;
+            // the SDU the peer is in the middle of sending
+            let mut peer_left: usize = 0;
+            while (ops.len() as u64) < nops && alive {
+                let st = b.verif_state();
+                let established = st[1] == 1;
+                let (mtu, exp_seq, last_sent) = (st[3] as usize, (st[11] as u8).wrapping_add(1), st[15] as u8);
+                let c = self.rng.below(100);
+                if !established || c < 3 {
+                    // (re-)handshake
+                    let m = if self.rng.chance(4, 5) { self.rng.range(23, 260) as u16 } else { *self.rng.pick(&[0u16, 1, 2, 3, 5, 19, 20, 65535]) };
+                    let w = if self.rng.chance(4, 5) { self.rng.range(1, 12) as u8 } else { *self.rng.pick(&[0u8, 1, 79, 255]) };
+                    let g = match self.rng.below(3) { 0 => None, 1 => Some(m), _ => self.gatt_pick() };
+                    if st[0] == 1 {
+                        if st[5] == 1 {
+                            alive = push(&b, &mut ops, format!("o:{}:0:512", Self::g_str(g)));
+                        }
+                        let m2 = if self.rng.chance(4, 5) { self.rng.range(20, 244) as u16 } else { m };
+                        alive = alive && push(&b, &mut ops, format!("i:{}:1:{}", Self::g_str(g), hex(&hs_resp(m2, w))));
+                    } else {
+                        alive = push(&b, &mut ops, format!("i:{}:1:{}", Self::g_str(g), hex(&hs_req(m, w))));
+                    }
+                    peer_left = 0;
+                    self.count("hr_handshake");
+                } else if c < 45 {
+                    // a data segment from the peer, well formed unless `evil`
+                    let bad = self.rng.below(100) < evil;
+                    let with_ack = self.rng.chance(1, 3);
+                    let mut fl: u8 = if with_ack { 0x08 } else { 0 };
+                    let mut seq = exp_seq;
+                    let mut ack = last_sent;
+                    let hl_first = 4 + with_ack as usize;
+                    let hl_cont = 2 + with_ack as usize;
+                    let (mut mlen, plen);
+                    if peer_left == 0 {
+                        fl |= 0x01;
+                        let total = match self.rng.below(6) {
+                            0 => 0,
+                            1 => self.rng.range(1, (mtu - hl_first) as u64) as usize,
+                            2 => mtu - hl_first + self.rng.below(3) as usize,
+                            3 => self.rng.range(mtu as u64, 3 * mtu as u64) as usize,
+                            4 => 1,
+                            _ => self.rng.range(1, 1300) as usize,
+                        };
+                        mlen = total;
+                        plen = total.min(mtu - hl_first);
+                        if plen == total {
+                            fl |= 0x04;
+                        }
+                        peer_left = total - plen;
+                    } else {
+                        fl |= 0x02;
+                        mlen = 0;
+                        plen = peer_left.min(mtu - hl_cont);
+                        if plen == peer_left {
+                            fl |= 0x04;
+                        }
+                        peer_left -= plen;
+                    }
+                    let mut plen = plen;
+                    if bad {
+                        self.count("hr_evil_segment");
+                        match self.rng.below(9) {
+                            0 => seq = seq.wrapping_add(self.rng.range(1, 255) as u8),
+                            1 => {
+                                fl |= 0x08;
+                                ack = ack.wrapping_add(self.rng.range(1, 255) as u8)
+                            }
+                            2 => fl ^= *self.rng.pick(&[0x01u8, 0x02, 0x04, 0x20, 0x40]),
+                            3 => plen += 1,
+                            4 => plen = plen.saturating_sub(1),
+                            5 => mlen = mlen.wrapping_add(self.rng.range(1, 400) as usize) & 0xffff,
+                            6 => mlen = mlen.saturating_sub(1),
+                            7 => plen = 400,
+                            _ => {
+                                fl |= 0x01;
+                                mlen = self.rng.range(0, 60) as usize
+                            }
+                        }
+                    }
+                    let mut seg = hdr_bytes(fl, 0x6c, ack, seq, mlen as u16);
+                    seg.extend((0..plen).map(|i| (i as u8).wrapping_mul(7).wrapping_add(seq)));
+                    if bad && self.rng.chance(1, 6) {
+                        let k = self.rng.below(seg.len() as u64 + 1) as usize;
+                        seg.truncate(k);
+                    }
+                    alive = push(&b, &mut ops, format!("i:-:1:{}", hex(&seg)));
+                    if b.verif_state()[11] as u8 != seq || bad {
+                        // refused (or mangled): what the peer still owes is unknown to it too
+                        peer_left = b.verif_state()[12] as usize;
+                    }
+                    self.count("hr_segment");
+                } else if c < 55 {
+                    // a stand-alone ack from the peer
+                    let mut ack = last_sent;
+                    if self.rng.below(100) < evil {
+                        ack = ack.wrapping_sub(self.rng.range(1, 255) as u8);
+                        self.count("hr_evil_ack");
+                    }
+                    let seg = hdr_bytes(0x08, 0, ack, exp_seq, 0);
+                    alive = push(&b, &mut ops, format!("i:-:1:{}", hex(&seg)));
+                } else if c < 80 {
+                    let cap = if self.rng.chance(1, 25) { self.rng.below(8) } else { 512 };
+                    let t = self.rng.chance(1, 3) as u8;
+                    alive = push(&b, &mut ops, format!("o:-:{}:{}", t, cap));
+                } else if c < 90 {
+                    let l = match self.rng.below(8) {
+                        0 => 0,
+                        1 => 1233,
+                        2 => 1232,
+                        3 => 1,
+                        _ => self.rng.range(1, 400),
+                    };
+                    let a = if self.rng.chance(1, 12) { self.rng.below(3) } else { 1 };
+                    alive = push(&b, &mut ops, format!("s:{}:#{}.{}", a, l, self.rng.below(256)));
+                } else if c < 98 {
+                    let cap = if self.rng.chance(1, 10) { self.rng.below(40) } else { 2048 };
+                    alive = push(&b, &mut ops, format!("r:{}", cap));
+                } else {
+                    let t = self.rng.pick(&["x", "I0", "I1", "L0", "L1"]).to_string();
+                    alive = push(&b, &mut ops, t);
+                    peer_left = 0;
+                }
+            }
+            self.emit_e("hr", &ops);
+        }
+    }
+
+    /// stream "hw": window and sequence wrap-around without the peer ever being acknowledged
+    fn wrap_streams(&mut self) {
+        for &ws in &[1u8, 2, 3, 79, 255] {
+            for rehs in 0..2 {
+                for polls in 0..3 {
+                    let mut ops = vec![];
+                    let b = Btp::new();
+                    let mut seq = 0u8;
+                    let mut n = 0;
+                    'outer: for _round in 0..6 {
+                        let t = format!("i:-:1:{}", hex(&hs_req(200, ws)));
+                        let _ = apply(&b, &t);
+                        ops.push(t);
+                        if rehs == 1 {
+                            seq = 0;
+                        }
+                        let _ = apply(&b, "o:-:0:512");
+                        ops.push("o:-:0:512".into());
+                        for _ in 0..90 {
+                            let st = b.verif_state();
+                            let s = if rehs == 1 { (st[11] as u8).wrapping_add(1) } else { seq };
+                            // zero-length SDUs take no buffer space: only the window limits them
+                            let mut seg = hdr_bytes(0x0d, 0, st[15] as u8, s, 0);
+                            if n % 7 == 3 {
+                                seg = hdr_bytes(0x05, 0, 0, s, 1);
+                                seg.push(0x77);
+                            }
+                            let t = format!("i:-:1:{}", hex(&seg));
+                            if apply(&b, &t).is_err() {
+                                ops.push(t);
+                                break 'outer;
+                            }
+                            ops.push(t);
+                            seq = seq.wrapping_add(1);
+                            n += 1;
+                            if polls > 0 && n % (polls * 5) == 0 {
+                                let _ = apply(&b, "r:2048");
+                                ops.push("r:2048".into());
+                                let _ = apply(&b, "o:-:1:512");
+                                ops.push("o:-:1:512".into());
+                            }
+                        }
+                    }
+                    self.emit_e("hw", &ops);
+                }
+            }
+        }
+        // a conversation of > 600 segments in each direction with acks, one end against a scripted honest peer
+        for &(mtu, ws) in &[(23u16, 4u8), (100, 15), (247, 6), (30, 2)] {
+            let mut ops = vec![];
+            let b = Btp::new();
+            let go = |b: &Btp, ops: &mut Vec<String>, t: String| -> Option<Res> {
+                let r = apply(b, &t).ok();
+                ops.push(t);
+                r
+            };
+            go(&b, &mut ops, format!("i:{}:1:{}", mtu, hex(&hs_req(mtu, ws))));
+            go(&b, &mut ops, "o:-:0:512".into());
+            for k in 0..330u32 {
+                let st = b.verif_state();
+                let seq = (st[11] as u8).wrapping_add(1);
+                // the peer acknowledges everything it got so far and sends a one-segment SDU
+                let mut seg = hdr_bytes(0x0d, 0, st[15] as u8, seq, 2);
+                seg.extend_from_slice(&[k as u8, (k >> 8) as u8]);
+                go(&b, &mut ops, format!("i:-:1:{}", hex(&seg)));
+                go(&b, &mut ops, "r:2048".into());
+                go(&b, &mut ops, format!("s:1:#{}.{}", 1 + (k % 40), k % 256));
+                go(&b, &mut ops, "o:-:1:512".into());
+                go(&b, &mut ops, "o:-:1:512".into());
+            }
+            self.emit_e("hw", &ops);
+        }
+    }
+
+    // -------------------------------------------------------------- two ends
+    fn pair_case(&mut self, style: u64, target_ops: u64) {
+        let ga = self.gatt_pick();
+        let req_mtu = ga.map(|g| g.clamp(23, 247)).unwrap_or(23);
+        let rel = self.rng.chance(1, 3);
+        let gb = match self.rng.below(4) {
+            0 => self.gatt_pick(),
+            _ => Some(req_mtu),
+        };
+        let mut p = Pair::new(ga, gb, rel);
+        let mut ops: Vec<String> = vec![];
+        let mut dead = false;
+        let go = |p: &mut Pair, ops: &mut Vec<String>, t: String, dead: &mut bool| {
+            if !*dead && p.apply(&t).is_err() {
+                *dead = true;
+            }
+            ops.push(t);
+        };
+        // an SDU may be queued before the handshake completes
+        if self.rng.chance(1, 2) {
+            go(&mut p, &mut ops, format!("sA:#{}.{}", self.rng.range(1, 300), self.rng.below(256)), &mut dead);
+        }
+        if self.rng.chance(1, 4) {
+            go(&mut p, &mut ops, format!("sB:#{}.{}", self.rng.range(1, 300), self.rng.below(256)), &mut dead);
+        }
+        if style != 3 {
+            go(&mut p, &mut ops, "pA:0".into(), &mut dead);
+            if self.rng.chance(1, 2) {
+                // a smaller proposed window (1..12), as a different initiator would send
+                let w = if self.rng.chance(1, 2) { self.rng.range(1, 4) } else { self.rng.range(1, 12) };
+                go(&mut p, &mut ops, format!("wB:{}", w), &mut dead);
+            }
+            for t in ["dB", "pB:0", "dA"] {
+                go(&mut p, &mut ops, t.into(), &mut dead);
+            }
+        }
+        let bias_a = self.rng.range(1, 9); // who talks more
+        let lazy_fetch = self.rng.range(1, 6);
+        let timer_pc = self.rng.range(0, 60);
+        let mut burst: Option<(char, u64)> = None;
+        while (ops.len() as u64) < target_ops && !dead {
+            let mtu = p.b.verif_state()[3].max(20) as u64;
+            let x = if self.rng.below(10) < bias_a { 'A' } else { 'B' };
+            if style == 1 && burst.is_none() && self.rng.chance(1, 12) {
+                burst = Some((x, self.rng.range(3, 90)));
+            }
+            if let Some((bx, left)) = burst {
+                // one end's GATT task runs many times in a row
+                go(&mut p, &mut ops, format!("p{}:{}", bx, (self.rng.below(100) < timer_pc) as u8), &mut dead);
+                burst = if left > 1 { Some((bx, left - 1)) } else { None };
+                continue;
+            }
+            match self.rng.below(20) {
+                0..=2 => {
+                    let l = match self.rng.below(12) {
+                        0 => 0,
+                        1 => 1233,
+                        2 => 1232,
+                        3 => 1,
+                        4 => mtu - self.rng.below(7).min(mtu - 1),
+                        5 => mtu + self.rng.below(3),
+                        6 => 2 * mtu - self.rng.below(8),
+                        7 => self.rng.range(600, 1232),
+                        _ => self.rng.range(1, 4 * mtu),
+                    };
+                    go(&mut p, &mut ops, format!("s{}:#{}.{}", x, l, self.rng.below(256)), &mut dead);
+                }
+                3..=8 => go(&mut p, &mut ops, format!("p{}:{}", x, (self.rng.below(100) < timer_pc) as u8), &mut dead),
+                9..=15 => go(&mut p, &mut ops, format!("d{}", x), &mut dead),
+                _ => {
+                    if self.rng.below(6) < lazy_fetch {
+                        go(&mut p, &mut ops, format!("f{}", x), &mut dead)
+                    }
+                }
+            }
+        }
+        // drain: everything submitted must come out
+        if !dead && style != 2 {
+            for _ in 0..40 {
+                for t in ["pA:1", "pB:1", "dA", "dB", "fA", "fB", "dA", "dB"] {
+                    go(&mut p, &mut ops, t.into(), &mut dead);
+                }
+            }
+        }
+        self.next_id += 1;
+        self.count(&format!("cases_pair{style}"));
+        *self.stats.entry("ops_total".into()).or_insert(0) += ops.len() as u64;
+        let st = p.b.verif_state();
+        *self.stats.entry(format!("pair_mtu_{}", st[3] / 50 * 50)).or_insert(0) += 1;
+        *self.stats.entry(format!("pair_ws_{}", st[4] / 10 * 10)).or_insert(0) += 1;
+        if p.a.verif_state()[15] < 40 && ops.len() > 1200 {
+            self.count("pair_seq_wrapped_A");
+        }
+        self.lines.push(format!(
+            "P p{}_{} {} {} {} {}",
+            style,
+            self.next_id,
+            Self::g_str(ga),
+            Self::g_str(gb),
+            rel as u8,
+            ops.join(" ")
+        ));
+    }
+}
+
+fn gen(tier: &str, seed: u64, outdir: &str) {
+    rsm_harness::silence_panics();
+    let mut g = Gen { rng: Rng::new(seed), lines: vec![], stats: BTreeMap::new(), next_id: 0 };
+    let thorough = tier == "thorough";
+    g.header_sweep(if thorough { 8 } else { 1 });
+    g.handshake_sweep();
+    g.wrap_streams();
+    g.hostile_random(if thorough { 12000 } else { 1500 }, if thorough { 400 } else { 250 });
+    let pairs = if thorough { 3000 } else { 260 };
+    for k in 0..pairs {
+        let style = k % 4;
+        let target = match k % 5 {
+            0 => 2500,
+            1 => 900,
+            _ => g.rng.range(60, 500),
+        };
+        g.pair_case(style, target);
+    }
+    let mut f = std::fs::File::create(format!("{outdir}/cases.txt")).unwrap();
+    for l in &g.lines {
+        writeln!(f, "{l}").unwrap();
+    }
+    let mut s = String::from("{");
+    for (i, (k, v)) in g.stats.iter().enumerate() {
+        if i > 0 {
+            s.push(',');
+        }
+        write!(s, "\"{k}\":{v}").unwrap();
+    }
+    s.push('}');
+    std::fs::write(format!("{outdir}/stats.json"), s).unwrap();
+}
+
+fn probe() {
+    const PEER: u8 = 1;
+    let show = |name: &str, ops: &[&str]| {
+        let b = Btp::new();
+        let mut line = String::new();
+        for t in ops {
+            match apply(&b, t) {
+                Ok(r) => write!(line, " {}", r.show()).unwrap(),
+                Err(p) => {
+                    write!(line, " PANIC({})", p.lines().next().unwrap_or("")).unwrap();
+                    break;
+                }
+            }
+        }
+        println!("{name}:{line}");
+    };
+    let _ = PEER;
+    show("data-before-handshake", &["i:-:1:05000100aa"]);
+    show("window-overrun", &["i:-:1:656c04000000c80002", "o:-:0:512", "i:-:1:05000000", "i:-:1:05010000", "i:-:1:05020000"]);
+    show("bogus-ack", &["i:-:1:656c04000000c80005", "o:-:0:512", "i:-:1:08c800"]);
+    show("handshake-window-0", &["i:-:1:656c04000000c80000", "o:-:0:512"]);
+    show("handshake-req-mtu-2", &["i:2:1:656c04000000020005"]);
+    show("handshake-req-mtu-3", &["i:3:1:656c04000000030005"]);
+    show("handshake-req-relaxed-mtu-1", &["L1", "i:100:1:656c04000000010005"]);
+    show("handshake-resp-mtu-3", &["I1", "o:-:0:512", "i:-:1:656c04030005", "s:1:0102030405060708", "o:-:0:512"]);
+    show("ack-due-send-window-exhausted", &["i:-:1:656c04000000c80001", "o:-:0:512", "i:-:1:05000000", "o:-:0:512"]);
+    show("stale-prefix-after-refusal", &["i:-:1:656c04000000c80005", "o:-:0:512", "i:-:1:050005000102030405060708090a", "i:-:1:050003000a0b0c", "r:64"]);
+    show("ack-before-handshake-response", &["i:-:1:656c04000000c80005", "i:-:1:08fa00", "o:-:0:512"]);
+    show("begin-in-the-middle", &["i:-:1:656c04000000c80005", "o:-:0:512", "i:-:1:0100150011111111111111111111111111111111", "i:-:1:050103000a0b0c", "r:64"]);
+    // honest ends, 18 bytes at segment size 20
+    let mut p = Pair::new(None, None, false);
+    let mut line = String::new();
+    for t in ["pA:0", "dB", "pB:0", "dA", "sA:#18.0", "pA:0", "pA:0", "dB", "dB", "fB"] {
+        match p.apply(t) {
+            Ok(r) => write!(line, " {}", r.show()).unwrap(),
+            Err(_) => line.push_str(" PANIC"),
+        }
+    }
+    println!("honest-len-18-segment-20:{line}");
+    // honest ends, window 2: ack due while the send window is exhausted
+    // (the proposed window is cut to 2 in flight, as another initiator would propose)
+    let a = Btp::new();
+    a.set_initiator(true);
+    let b = Btp::new();
+    let mut buf = [0u8; 512];
+    let n = a.process_outgoing(None, &mut buf).unwrap();
+    buf[8] = 2;
+    b.process_incoming(None, addr(10), &buf[..n]).unwrap();
+    let n = b.process_outgoing(None, &mut buf).unwrap();
+    a.process_incoming(None, addr(11), &buf[..n]).unwrap();
+    a.verif_send(&[1, 2, 3], addr(11)).unwrap();
+    let n = a.process_outgoing(None, &mut buf).unwrap();
+    b.process_incoming(None, addr(10), &buf[..n]).unwrap();
+    b.verif_send(&[4, 5, 6], addr(10)).unwrap();
+    let n = b.process_outgoing(None, &mut buf).unwrap();
+    a.process_incoming(None, addr(11), &buf[..n]).unwrap();
+    let mut m = [0u8; 64];
+    b.verif_recv(&mut m).unwrap();
+    let r = catch(AssertUnwindSafe(|| b.process_outgoing(None, &mut buf).map_err(|e| e.code())));
+    println!("honest-window-2-ack-due-window-exhausted: {:?}", r.map_err(|p| format!("PANIC({})", p.lines().next().unwrap_or(""))));
+}
+
+fn main() {
+    let args: Vec<String> = std::env::args().collect();
+    match args.get(1).map(|s| s.as_str()) {
+        Some("gen") => gen(&args[2], args[3].parse().unwrap(), &args[4]),
+        Some("run") => {
+            rsm_harness::silence_panics();
+            let text = std::fs::read_to_string(&args[2]).unwrap();
+            let stdout = std::io::stdout();
+            let mut w = std::io::BufWriter::new(stdout.lock());
+            let mut out = String::new();
+            for line in text.lines().filter(|l| !l.is_empty()) {
+                out.clear();
+                run_line(line, &mut out);
+                w.write_all(out.as_bytes()).unwrap();
+            }
+        }
+        Some("probe") => {
+            rsm_harness::silence_panics();
+            probe()
+        }
+        _ => {
+            eprintln!("usage: c18 gen <quick|thorough> <seed> <outdir> | run <cases> | probe");
+            std::process::exit(2);
+        }
+    }
 }
